@@ -8,7 +8,7 @@ import warnings
 
 from . import common, tlaval
 
-NODOC = {'kind': 'none', 'q': 'd3', 'opn': 'own', 'cls': 'own', 'lead': 0, 'nblk': 0, 'inlead': 0, 'nsrc': 0, 'nwant': 0}
+NODOC = {'kind': 'none', 'q': 'd3', 'opn': 'own', 'cls': 'own', 'lead': 0, 'nblk': 0, 'inlead': 0, 'nsrc': 0, 'nwant': 0, 'hdr': 'none'}
 
 
 def _is_main_guard(node):
